@@ -506,6 +506,9 @@ func runC13(c *Ctx) error {
 	if err := c13ChosenSequenceNumbers(c); err != nil {
 		return err
 	}
+	if err := c13ErrorPingsBothDirections(c); err != nil {
+		return err
+	}
 	if err := c13StalledPeer(c); err != nil {
 		return err
 	}
@@ -707,6 +710,71 @@ func c13ChosenSequenceNumbers(c *Ctx) error {
 		if stalled {
 			break
 		}
+	}
+	return nil
+}
+
+// c13ErrorPingsBothDirections: error pings travel in both directions between two routers in either
+// order (the router first sends one to the peer — here because the peer's traffic arrives before
+// keys exist — and then receives the peer's; or the other way round; or interleaved).  Whatever
+// bookkeeping the router keeps per peer, no authentic error ping crashes a worker.
+func c13ErrorPingsBothDirections(c *Ctx) error {
+	orders := [][]string{{"out", "in"}, {"in", "out", "in"}, {"out", "out", "in", "in"}, {"in", "in", "out", "in"}}
+	for oi, order := range orders {
+		w := newRWorld()
+		R, err := w.addNode("R", relayStore, nil)
+		if err != nil {
+			return err
+		}
+		P, err := w.addNode("P", relayStore, nil)
+		if err != nil {
+			return err
+		}
+		if _, _, err := w.connect(R, P, 11, 12); err != nil {
+			return err
+		}
+		R.ro.VerifSetHandleTraffic(true)
+		sentByR := 0
+		for k, step := range order {
+			var data []byte
+			if step == "out" {
+				// P's traffic for R before end-to-end keys exist: R answers with an error ping
+				f, err := P.builder.NewFrameV1(P.id.IP, R.id.IP, frame.NetworkTraffic, nil, randBytes(c, 60), nil)
+				if err != nil {
+					return err
+				}
+				d, _ := f.FrameDataWithMargins(0, 0)
+				data = append([]byte(nil), d...)
+				f.ReturnToPool()
+			} else {
+				code := []uint8{1, 2, 3, 4, 5}[(k+oi)%5]
+				spec := pingSpec{from: P.id, dst: R.id.IP, msgType: frame.RouterPing, pingType: "error", pingCode: code, seqTime: nextCraftTime(), pingID: uint64(700 + k)}
+				if code == 1 {
+					spec.body, _ = cbor.Marshal(map[string]netip.Addr{"u": P.id.IP})
+				} else {
+					spec.body, _ = cbor.Marshal(map[string]any{"d": P.id.IP, "t": 6, "p": 80})
+				}
+				if data, err = craftPing(spec); err != nil {
+					return err
+				}
+			}
+			w.queue = nil
+			res := R.inject(data, R.links[P.id.IP])
+			c.Eval()
+			for _, q := range w.queue {
+				if fi := parseFrameInfo(q.data); fi.ok && fi.src == R.id.IP && fi.dst == P.id.IP {
+					sentByR++
+				}
+			}
+			w.queue = nil
+			R.tunRaw()
+			c.Count("error-pings:" + step)
+			if res.panicked() {
+				c.Violate(fmt.Sprintf("an authentic frame crashed a router worker (step %d of the order %v: error pings in both directions between two routers)", k+1, order), "error-ping-panic", map[string]any{"order": order, "step": k + 1, "sent_by_router_so_far": sentByR})
+				break
+			}
+		}
+		c.NonTrivial(fmt.Sprintf("error-pings/%v/sent=%v", order, sentByR > 0))
 	}
 	return nil
 }
